@@ -498,7 +498,9 @@ impl FileSpec {
     }
 }
 
-const PKGS: [Option<&str>; 3] = [None, Some("p"), Some("p.q")];
+/// `Some("")` = the `package` field is present but empty (what some descriptor producers emit
+/// for a file without a package statement): its names have no package prefix either.
+const PKGS: [Option<&str>; 4] = [None, Some("p"), Some("p.q"), Some("")];
 
 fn forests(tier: Tier, pairs: bool) -> Vec<Vec<MsgS>> {
     if pairs {
@@ -1501,7 +1503,7 @@ pub fn property(tier: Tier) -> Property {
     let s1 = Section::new(
         "single-file",
         cfg(),
-        &format!("cases: every file of the grammar package in {{none,p,p.q}} x message forest (nesting <= {}) x members (field / oneof+member / first-only / last-only) x enum (none / top-level / nested in first / nested in deepest message; 1-2 values) x service (none / 1-2 methods), names from {{A,B,a,b}} (nested enums also C/c), sets declaring a name twice skipped; x registration (decoded, encoded, twice in two sets{}) x with_service_name (never / undeclared+last declared{}) x include_reflection_service. {rule_tail}", tier.q(2, 3), tier.q("", ", twice in one set, twice encoded"), tier.q("", " / first declared")),
+        &format!("cases: every file of the grammar package in {{none,p,p.q,present-but-empty}} x message forest (nesting <= {}) x members (field / oneof+member / first-only / last-only) x enum (none / top-level / nested in first / nested in deepest message; 1-2 values) x service (none / 1-2 methods), names from {{A,B,a,b}} (nested enums also C/c), sets declaring a name twice skipped; x registration (decoded, encoded, twice in two sets{}) x with_service_name (never / undeclared+last declared{}) x include_reflection_service. {rule_tail}", tier.q(2, 3), tier.q("", ", twice in one set, twice encoded"), tier.q("", " / first declared")),
         singles,
         describe,
         body,
